@@ -1,7 +1,7 @@
 #!/bin/sh
 # usage: tools/round.sh <outdir> <prop> <letter>...   -- confirm the delivered seeded changes of one property and run its check against them (scratch worktrees)
 out="$1"; p="$2"; shift 2
-cd /verif
+cd "$(dirname "$0")/.."
 for l in "$@"; do
   if [ -f "$out/$p/$l.diff" ]; then
     tools/seedtest.py confirm "$p-$l" "$p" "$out/$p/$l.diff" "$out/$p/demo_$l.py" 2>&1 | grep -v WARN | tail -1
